@@ -57,3 +57,76 @@ Theorem C13_byref_irrelevant : forall t old evs evs',
   Forall2 ref_equiv evs evs' -> unfold_value t old evs = unfold_value t old evs'.
 Proof. exact C10_unfold_byref. Qed.
 Print Assumptions C13_byref_irrelevant.
+
+(* Typed targets.  [struct_spec] (Gotype/UnfoldStructProofs.v) is the short specification of
+   what a struct target does with an object: the members are processed left to right; a
+   member whose key is in the struct's field table (names through inlined structs included)
+   updates that field with the result of unfolding the member's value into the field's
+   current value; a member whose key is NOT in the table changes nothing; the first failing
+   member fails the whole unfold.  For EVERY struct type (any field types, inlined structs),
+   every previous target value and every object - any member keys, by value or by reference,
+   any member values incl. extended events - the unfolder model computes exactly this. *)
+From SF Require Gotype.UnfoldStructProofs.
+Import SF.Gotype.UnfoldStructProofs.
+Theorem C13_struct_spec : forall t fs tab old n bt (ms : list member) F,
+  under t = TStruct fs -> field_table (S (ftsize t)) fs O = inr tab -> ucc_type t = None ->
+  (doc_len (TObj n bt ms) + ftsize t <= S F)%nat ->
+  unfold_value t old (flatten (TObj n bt ms)) =
+  match struct_spec F tab old (map xmember ms) with
+  | UOk v _ => UDone v
+  | UErr x => UFail (doc_len (TObj n bt ms) - length x)
+  end.
+Proof. exact C13_struct_unfold_value. Qed.
+Print Assumptions C13_struct_spec.
+
+(* "leaves fields the stream does not mention untouched" *)
+Theorem C13_unmentioned_untouched : forall t fs tab olds n bt (ms : list member) v i,
+  under t = TStruct fs -> field_table (S (ftsize t)) fs O = inr tab ->
+  unfold_value t (GStruct olds) (flatten (TObj n bt ms)) = UDone v ->
+  untouched tab i ms = true ->
+  exists vs, v = GStruct vs /\ length vs = length olds /\ nth i vs GNil = nth i olds GNil.
+Proof. exact C13_unmentioned_untouched_doc. Qed.
+Print Assumptions C13_unmentioned_untouched.
+
+(* "skips each object member that has no matching struct field together with its entire
+   arbitrarily nested value, however the producer delivers strings and keys": with or without
+   such a member - at any position, with ANY tree as its value, whatever the object announces -
+   the result is the same value, or fails in both cases *)
+Theorem C13_unknown_member_irrelevant : forall t fs tab old n n' bt bt' (ms1 ms2 : list member) k b x,
+  under t = TStruct fs -> field_table (S (ftsize t)) fs O = inr tab ->
+  assoc_key k tab = None ->
+  uresult_same (unfold_value t old (flatten (TObj n bt (ms1 ++ (k, b, x) :: ms2))))
+               (unfold_value t old (flatten (TObj n' bt' (ms1 ++ ms2)))).
+Proof. exact C13_unknown_member_irrelevant_doc. Qed.
+Print Assumptions C13_unknown_member_irrelevant.
+
+(* "assigns every field whose name and shape match, converting numbers between all numeric
+   widths": the last member naming a scalar field leaves there the scalar, converted with the Go
+   conversion [conv] when both are numbers (leaf_val; every numeric kind converts to every
+   numeric kind - the model never refuses a number), by value or by reference *)
+Theorem C13_matching_scalar_assigned : forall t fs tab olds n bt (ms1 ms2 : list member) k b s byref i ft lv v,
+  under t = TStruct fs -> field_table (S (ftsize t)) fs O = inr tab ->
+  assoc_key k tab = Some ([i], ft) -> (i < length olds)%nat ->
+  leaf_val (under ft) (EVal s) = Some lv ->
+  untouched tab i ms2 = true ->
+  unfold_value t (GStruct olds) (flatten (TObj n bt (ms1 ++ (k, b, TVal s byref) :: ms2))) = UDone v ->
+  exists vs, v = GStruct vs /\ length vs = length olds /\ nth i vs GNil = lv.
+Proof. exact C13_matching_leaf_assigned_doc. Qed.
+Print Assumptions C13_matching_scalar_assigned.
+
+(* a scalar of the wrong shape for a scalar field is refused, not stored *)
+Theorem C13_mismatching_scalar_refused : forall f tab cur (ms1 ms2 : list member) k b s path ft,
+  assoc_key k tab = Some (path, ft) ->
+  prim_kind ft = true -> leaf_val (under ft) (EVal s) = None ->
+  ur_val (struct_spec (S f) tab cur (ms1 ++ (k, b, TVal s false) :: ms2)) = None.
+Proof. exact C13_mismatching_scalar_fails. Qed.
+Print Assumptions C13_mismatching_scalar_refused.
+
+(* the order of members naming different fields does not matter (PARTIAL: members leading
+   into the same inlined struct are not covered) *)
+Theorem C13_member_order_irrelevant_partial : forall t fs tab old n n' bt bt' (ms ms' : list member),
+  under t = TStruct fs -> field_table (S (ftsize t)) fs O = inr tab ->
+  Permutation.Permutation ms ms' -> pairwise_indep tab ms ->
+  uresult_same (unfold_value t old (flatten (TObj n bt ms))) (unfold_value t old (flatten (TObj n' bt' ms'))).
+Proof. exact C13_member_order_irrelevant_doc_partial. Qed.
+Print Assumptions C13_member_order_irrelevant_partial.
